@@ -11,11 +11,18 @@
 (c) finalized canvases refuse mutation: in every public method / property setter of the canvas classes each write of the
     canvas is reached only after `if self.widget_info [and self.cacheable]: raise self._finalized_error`.
 
+(d) shared shard lists are never mutated in place: `CompositeCanvas(canv)` — the sanctioned way to change a finalized canvas —
+    shares `canv.shards` (and the cview lists inside) with the canvas it wraps; in every CompositeCanvas method and every
+    shard-list helper of urwid/canvas.py no path performs an in-place list mutation (append / extend / += / item assignment ...)
+    on a list that may be shared (path-sensitive provenance analysis, pyvc/effects.py analyse_shared_shards). Otherwise a
+    cached canvas changes after it was handed out, without any CanvasError (statement: "canvases handed out by the cache are
+    never modified afterwards").
+
 The deductive contracts of CanvasCache / the render wrappers / Canvas.finalize are in contracts/C06_store.py."""
 import urwid
 
 from pyvc.api import REGISTRY, Contract
-from pyvc.effects import analyse_class, analyse_finalized_guard, analyse_render_deps
+from pyvc.effects import analyse_class, analyse_finalized_guard, analyse_render_deps, analyse_shared_shards
 
 CLASSES = [
     urwid.Text, urwid.Edit, urwid.IntEdit, urwid.Divider, urwid.SolidFill, urwid.Padding, urwid.Filler, urwid.Pile,
@@ -87,6 +94,8 @@ class _EffectsTask(Contract):
             self.group = "render-depends-on-consulted-children"
         if kind == "guard":
             self.group = "finalized-canvas-refuses-mutation"
+        if kind == "shards":
+            self.group = "shared-shard-lists-not-mutated-in-place"
 
 
 def _make(cls, kind="effects"):
@@ -106,6 +115,8 @@ for _c in DEP_CLASSES:
     _make(_c, "deps")
 for _c in GUARD_CLASSES:
     _make(_c, "guard")
+# (d) the class whose instances share shard lists with the canvases they wrap (and the shard-list helpers of its module)
+_make(_canvas.CompositeCanvas, "shards")
 
 
 def run_effects(target):
@@ -114,5 +125,7 @@ def run_effects(target):
         return analyse_render_deps(t.cls_, DEP_EXEMPT)
     if t.kind == "guard":
         return analyse_finalized_guard(t.cls_)
+    if t.kind == "shards":
+        return analyse_shared_shards(t.cls_)
     results, rs = analyse_class(t.cls_, EXEMPT)
     return results, rs
